@@ -123,6 +123,10 @@ class _Descr:
 
     def __set_name__(self, owner, name):
         self.owner = owner       # CPython calls this again for the replacement class
+        try:
+            setattr(owner, "_sn_" + name, SN_MARK)      # a descriptor that registers itself on its owner
+        except BaseException:  # noqa: BLE001
+            pass
 
     def __get__(self, inst, owner):
         if inst is None:
@@ -146,13 +150,16 @@ def _hook(inst, a, v):
     return v
 
 
-class Meta(type):
-    created: list = []
+META_MARK, ISC_MARK, AISUB_MARK, SN_MARK = ("meta-mark",), ("isc-mark",), ("aisub-mark",), ("sn-mark",)
 
+
+class Meta(type):
     def __new__(mcs, name, bases, ns, **kw):
-        cls = super().__new__(mcs, name, bases, ns)
-        Meta.created.append(cls)
-        return cls
+        return super().__new__(mcs, name, bases, ns)
+
+    def __init__(cls, name, bases, ns, **kw):
+        super().__init__(name, bases, ns)
+        cls.meta_mark = META_MARK        # a metaclass hook that annotates every class it creates
 
 
 GLOBALS = {"_REC": _rec, "_CP": _cp, "attr": attr, "functools": functools, "_Descr": _Descr, "_wrap": _wrap,
@@ -266,6 +273,7 @@ def _base_cprop(name):
 def _isub_hook():
     def __attrs_init_subclass__(cls):
         ISUB.append(cls)
+        cls.aisub_mark = AISUB_MARK      # the hook annotates the class it is given
         if HOOK_PROBE[0] is not None:
             HOOK_PROBE[0](cls)       # look at the class NOW, not after the decorator returned
     return classmethod(__attrs_init_subclass__)
@@ -289,6 +297,10 @@ def build_bases(hs):
             cp = _base_cprop(n)
             ns[n] = cp
         ns["bm"] = lambda self: "bm"
+        if bs.get("isc"):
+            def __init_subclass__(cls, **kw):
+                cls.isc_mark = ISC_MARK          # runs for the original class AND for the slotted replacement
+            ns["__init_subclass__"] = classmethod(__init_subclass__)
         name = f"B{i}"
         if k in ("sattrs", "dattrs"):
             for f in bs.get("fields", []):
@@ -335,8 +347,56 @@ def _meta(hs):
     return {"type": type, "custom": Meta, "abc": abc.ABCMeta}[hs.get("meta", "type")]
 
 
-def _decorate(hs, cls, slots=True):
+def ft_objects(hs):
+    """the objects a field_transformer hook of this case installs on the class it is handed"""
+    out = {}
+    for op in hs.get("ft") or []:
+        kind, key = op[0], op[1]
+        if kind == "del":
+            continue
+        what = op[2] if len(op) > 2 else "plain"
+        if what == "fn":
+            out[key] = (lambda k: (lambda self: k))(key)
+        elif what == "cm":
+            out[key] = classmethod((lambda k: (lambda cls: k))(key))
+        else:
+            out[key] = ("ft", key)
+    return out
+
+
+def ft_apply(hs, objs, target):
+    """what the hook does -- to a class (setattr / delattr) or, to predict the outcome, to a dict"""
+    for op in hs.get("ft") or []:
+        kind, key = op[0], op[1]
+        try:
+            if isinstance(target, dict):
+                if kind == "del":
+                    target.pop(key, None)
+                else:
+                    target[key] = objs[key]
+            elif kind == "del":
+                delattr(target, key)
+            else:
+                setattr(target, key, objs[key])
+        except (AttributeError, TypeError):
+            pass
+
+
+def eff_items(hs):
+    """the body items as the builder will see them: those a field_transformer deletes or replaces are gone"""
+    gone = {op[1] for op in hs.get("ft") or []}
+    return {k: sp for k, sp in hs["items"] if k not in gone}
+
+
+def _decorate(hs, cls, slots=True, ft_objs=None):
     kw = {"slots": slots, "weakref_slot": bool(hs.get("weakref_slot", True))}
+    if hs.get("ft"):
+        objs = ft_objs if ft_objs is not None else ft_objects(hs)
+
+        def transformer(klass, fields):
+            ft_apply(hs, objs, klass)       # a hook that annotates the class it is handed
+            return list(fields)
+        kw["field_transformer"] = transformer
     if hs.get("cache_hash"):
         kw["cache_hash"] = True
         kw["unsafe_hash"] = True
@@ -514,6 +574,9 @@ def build(hs, decorate=True):
     b.old = old
     # ABCMeta's own bookkeeping is recomputed by the metaclass for the new class: not part of the body
     b.old_dict = {k: v for k, v in old.__dict__.items() if k not in ("__abstractmethods__", "_abc_impl")}
+    # ... and the builder copies the class dict AFTER the user's field_transformer ran on the class
+    b.ft_objs = ft_objects(hs)
+    ft_apply(hs, b.ft_objs, b.old_dict)
     del ISUB[:]
     b.new = None
     b.isub = []
@@ -528,7 +591,7 @@ def build(hs, decorate=True):
                 ns2 = {k: v for k, v in old.__dict__.items()
                        if k not in ("__dict__", "__weakref__", "__abstractmethods__", "_abc_impl")}
                 earlier = _meta(hs)(name, bases, ns2)
-                _decorate(hs, earlier, slots=(kind == "slots"))
+                _decorate(hs, earlier, slots=(kind == "slots"), ft_objs=b.ft_objs)
             except BaseException:  # noqa: BLE001 -- context only; the class under test is what is judged
                 pass
             finally:
@@ -544,7 +607,7 @@ def build(hs, decorate=True):
             b.hook_snap.append(snap)
         HOOK_PROBE[0] = at_hook_time
         try:
-            b.new = _decorate(hs, old)
+            b.new = _decorate(hs, old, ft_objs=b.ft_objs)
             b.isub = list(ISUB)
         finally:
             HOOK_PROBE[0] = None
@@ -560,7 +623,7 @@ def _raw_calls(cls, b):
     """invoke every reachable function part of the body that uses the class, on `cls` as it is right now;
     returns [[key, part], raw evidence] (the class object seen, True/False for super(), MISSING if it did not run)"""
     hs = b.hs
-    items = dict((k, s) for k, s in hs["items"])
+    items = eff_items(hs)
     attr_names = _attr_names(hs)
     has_cp = any(s["k"] == "cprop" and k not in attr_names for k, s in hs["items"])
     out = []
@@ -633,6 +696,14 @@ def _classify(ev, new, old):
     if ev is old:
         return "old"
     return "other"
+
+
+def _static(cls, k):
+    """the raw object found under `k` along the MRO (no descriptor binding)"""
+    for K in cls.__mro__:
+        if k in K.__dict__:
+            return K.__dict__[k]
+    return MISSING
 
 
 def assign_probe(C, names):
@@ -722,7 +793,7 @@ def inherited_names(hs):
 
 def lean_case(hs, b=None):
     b = b or build(hs, decorate=False)
-    items = dict((k, s) for k, s in hs["items"])
+    items = eff_items(hs)
     body = []
     for k in b.old_dict:
         spec = items.get(k)
@@ -792,7 +863,7 @@ def failed_obs(hs, what):
     return {"keys": [], "slots": [], "reused": [], "slotCount": [], "hasDict": False, "weakrefable": False,
             "setUnknown": "other", "getUnknown": "other", "cells": [], "calls": [], "cachedReturns": [],
             "cachedComputes": [], "initSubclass": [], "ownSetattrFlag": None, "setattrReset": False,
-            "hookCalls": [], "hookView": [], "assignAgree": False, "lookupDiff": [], "runtimeDiff": [what]}
+            "hookCalls": [], "hookView": [], "assignAgree": False, "lookupDiff": [], "callbackDiff": [], "runtimeDiff": [what]}
 
 
 def attrs_caused(e):
@@ -814,7 +885,7 @@ def observe(hs):
             raise               # the specification itself is not definable: a generator bug
         return failed_obs(hs, "define:" + common.exc_kind(e))
     new, old = b.new, b.old
-    items = dict((k, s) for k, s in hs["items"])
+    items = eff_items(hs)
     attr_names = set(hs["fields"]) | set(inherited_names(hs))
     obs = {}
     # keys
@@ -961,20 +1032,38 @@ def observe(hs):
     obs["assignAgree"] = True
     names = list(inherited_names(hs)) + list(hs["fields"])
     inh = set(inherited_names(hs))
+    cb = []
+    for op in hs.get("ft") or []:
+        if op[0] == "del" and op[1] in new.__dict__:
+            cb.append("deleted-key-present:" + op[1])
+    if b.isub and new.__dict__.get("aisub_mark", MISSING) is not AISUB_MARK:
+        cb.append("aisub-mark")
+    try:
+        twin = _decorate(hs, old, slots=False, ft_objs=b.ft_objs)
+    except BaseException:  # noqa: BLE001
+        twin = None
+    finally:
+        del ISUB[:]
+    if twin is not None:
+        # what callbacks running during construction left on the class: both builds must show the same objects
+        marks = [op[1] for op in hs.get("ft") or []] + ["meta_mark", "isc_mark", "aisub_mark"] + \
+            [k for k in b.old_dict if k.startswith("_sn_")]
+        for k in marks:
+            if k in inh or k in hs["fields"]:
+                continue
+            if _static(new, k) is not _static(twin, k):
+                cb.append("twin:" + k)
+    obs["callbackDiff"] = sorted(set(cb))
     # not compared: frozen leaves (every assignment raises; the frozen *dict* twin may hit K3), a body-level
     # __slots__ (the dict twin has no __dict__), body keys shadowing inherited fields (dropped by the slotted build)
     comparable = (hs.get("body_slots") is None and not hs.get("frozen")
                   and not any(k in inh for k, _s in hs["items"]))
-    if comparable and inst is not None and names:
+    if comparable and inst is not None and names and twin is not None:
         on = assign_probe(new, names)
         try:
-            twin = _decorate(hs, old, slots=False)
             twin()
-        except BaseException:  # noqa: BLE001
-            twin = None
-        finally:
-            del ISUB[:]
-        if twin is not None:
             obs["assignAgree"] = on == assign_probe(twin, names)
+        except BaseException:  # noqa: BLE001
+            pass
     del LOG[:]
     return obs
